@@ -408,7 +408,16 @@ class Executor:
         if isinstance(s, ast.Return):
             if s.value is None:
                 return [(st, ('return', None, ln))]
-            return [(s2, ex or ('return', v, ln)) for s2, v, ex in self.ev(s.value, st, fctx)]
+            outs = []
+            for s2, v, ex in self.ev(s.value, st, fctx):
+                if not ex and isinstance(v, (ast.Compare, ast.BoolOp)) or (not ex and isinstance(v, ast.UnaryOp) and isinstance(v.op, ast.Not)):
+                    # `return <condition>`: the value is the truth of the condition on each path (the same table as
+                    # `if <condition>: return True / else: return False`)
+                    for s3, b, ex3 in self.branch(v, s2, fctx, ln):
+                        outs.append((s3, ex3 or ('return', ast.Constant(value=bool(b)), ln)))
+                    continue
+                outs.append((s2, ex or ('return', v, ln)))
+            return outs
         if isinstance(s, ast.Raise):
             if s.exc is None:
                 return [(st, ('raise', 'reraise', ln))]
@@ -1167,10 +1176,27 @@ class _Ev:
             return e
         if r[0] == 'ext':
             return name(r[1])
+        if r[0] == 'func' and e.id.startswith('_'):
+            # a private module-level function that only returns an expression of its parameters, used as a value
+            # (sort key ...): the lambda it stands for
+            fn = r[1].node
+            body = [s_ for s_ in fn.body if not (isinstance(s_, ast.Expr) and isinstance(s_.value, ast.Constant))]
+            if len(body) == 1 and isinstance(body[0], ast.Return) and body[0].value is not None and not fn.args.defaults \
+                    and not fn.args.vararg and not fn.args.kwarg and not fn.args.kwonlyargs \
+                    and not any(isinstance(n, (ast.Call, ast.Yield, ast.YieldFrom)) for n in ast.walk(body[0].value)):
+                return ast.Lambda(args=ast.arguments(posonlyargs=[], args=[ast.arg(arg=a.arg) for a in fn.args.args], kwonlyargs=[],
+                                                     kw_defaults=[], defaults=[]), body=copy.deepcopy(body[0].value))
         if r[0] == 'global':
             v = r[2]
             if isinstance(v, ast.Constant):
                 return v
+            # a private module constant holding a literal container of constants, or float('inf') and the like
+            if e.id.startswith('_'):
+                if isinstance(v, (ast.Tuple, ast.List)) and all(isinstance(x, ast.Constant) for x in v.elts):
+                    return copy.deepcopy(v)
+                if isinstance(v, ast.Call) and isinstance(v.func, ast.Name) and v.func.id in ('float', 'int') and len(v.args) == 1 \
+                        and isinstance(v.args[0], ast.Constant) and not v.keywords:
+                    return copy.deepcopy(v)
             # EventPriority(0) style constants
             if isinstance(v, ast.Call) and len(v.args) == 1 and isinstance(v.args[0], ast.Constant) and \
                     isinstance(v.func, ast.Name) and v.func.id[:1].isupper() and not v.keywords:
@@ -1488,7 +1514,16 @@ class _Ev:
                 if out is not None:
                     return out
             if r and r[0] == 'class':
-                # constructor call: effect (it may schedule events etc.)
+                # constructor call: effect (it may schedule events etc.).  Arguments are put into the order of the
+                # constructor's parameters: Packet(t, size=s) and Packet(time=t, size=s) are the same call
+                init = r[1].lookup('__init__')
+                if init is not None and kwargs and not init.node.args.vararg:
+                    ps = [p_ for p_ in init.params if p_ != 'self']
+                    kw = dict(kwargs)
+                    pos = list(args)
+                    while len(pos) < len(ps) and ps[len(pos)] in kw:
+                        pos.append(kw.pop(ps[len(pos)]))
+                    args, kwargs = pos, [(k, v) for k, v in kwargs if k in kw]
                 return self.effect_call(r[1].name, name(r[1].name), args, kwargs, st, ln)
             return self.effect_call(fname, name(fname), args, kwargs, st, ln)
         # --- attribute calls
